@@ -247,4 +247,127 @@ class ComponentsReadOnly(Contract):
             ctx.oblige("no-list-no-components", result is None)
 
 
-CONTRACTS = [FileNameSet, ClearArrays, PropertyGroupInitStub, CreatePropertyGroupMembers, DrillholeClip, ComponentsReadOnly]
+def _concat_data(ctx, stored, holder_of_new, old_registered=True):
+    import uuid
+
+    from geoh5py.shared.concatenation.data import ConcatenatedData
+
+    me = Opaque("self", cls=ConcatenatedData)
+    uid, other = uuid.UUID(int=7), uuid.UUID(int=8)
+    table = {}
+    if old_registered:
+        table["Property:old"] = "{" + str(uid) + "}"
+    if holder_of_new == "another":
+        table["Property:new"] = "{" + str(other) + "}"
+    elif holder_of_new == "itself":
+        table["Property:new"] = "{" + str(uid) + "}"
+    attrs = PDict(dict(table))
+    conc = Opaque("concatenator")
+    g = Opaque("get_concatenated_attributes")
+    g.maybe_method = lambda I, a, kw: attrs
+    conc.attrs["get_concatenated_attributes"] = g
+    u = Opaque("update_array_attribute")
+    u.maybe_method = lambda I, a, kw: I.event("update_array_attribute", name=a[1] if len(a) > 1 else None, remove=kw.get("remove", False), table=dict(attrs.items), name_now=me.attrs.get("_name"))
+    conc.attrs["update_array_attribute"] = u
+    parent = Opaque("hole")
+    ctx.path.assume(~parent.none_var())
+    parent.attrs["uid"] = uuid.UUID(int=1)
+    parent.attrs["concatenator"] = conc
+    ac = Opaque("hole.add_children")
+    ac.maybe_method = lambda I, a, kw: I.event("add_children", table=dict(attrs.items))
+    parent.attrs["add_children"] = ac
+    me.attrs.update({"uid": uid, "_uid": uid, "_name": "old", "_on_file": stored, "concatenator": conc, "workspace": _ws(ctx)})
+    ctx.env.update(me=me, attrs=attrs, table=dict(table), uid_text="{" + str(uid) + "}", hole=parent)
+    return me, parent
+
+
+class ConcatNameSet(Contract):
+    """ConcatenatedData.name: the data of a drillhole are filed under their names -- a stored data takes
+    its registration and its values along when renamed, and a name another data of the hole is filed
+    under is refused with nothing changed (add_data refuses a second data of a name the same way)."""
+    target = "geoh5py/shared/concatenation/data.py::ConcatenatedData.name.fset"
+    props = ("C04", "C05", "C03")
+    lenient = True
+    @staticmethod
+    def _values(I, o):
+        I.event("values-read", name_now=o.attrs.get("_name"))
+        v = Opaque("the-values")
+        I.ctx.path.assume(~v.none_var())  # the data holds values
+        return v
+
+    attr_overrides = {"values": lambda I, o: ConcatNameSet._values(I, o)}
+
+    def cases(self):
+        return [(stored, holder) for stored in (True, False) for holder in ("nobody", "another", "itself")]
+
+    def setup(self, ctx):
+        stored, holder = ctx.case
+        me, parent = _concat_data(ctx, stored, holder)
+        me.attrs["_parent"] = parent
+        me.attrs["parent"] = parent
+        return [me, "new"], {}
+
+    def post(self, ctx, result):
+        e = ctx.env
+        stored, holder = ctx.case
+        ev = ctx.path.events
+        if stored and holder == "another":
+            ctx.oblige("a-name-filed-for-another-data-of-the-hole-is-refused", False, note="the other data's registration was overwritten: its values can no longer be reached")
+            return
+        ctx.oblige("the-name-is-set-and-written", e["me"].attrs.get("_name") == "new" and bool([1 for k, p in ev if k == "update_attribute"]))
+        if stored:
+            t = e["attrs"].items
+            ctx.oblige("the-registration-follows-the-name", t.get("Property:new") == e["uid_text"] and "Property:old" not in t, note=f"records of the hole afterwards: {sorted(t)}")
+            moves = [p for k, p in ev if k == "update_array_attribute"]
+            reads = [p for k, p in ev if k == "values-read"]
+            ctx.oblige("the-values-are-read-under-the-old-name-removed-there-and-filed-under-the-new",
+                       bool(reads) and reads[0]["name_now"] == "old" and len(moves) == 2 and moves[0]["name"] == "old" and moves[0]["remove"] is True and moves[1]["name"] == "new" and moves[1]["name_now"] == "new",
+                       note="; ".join(f"{p['name']}{' (remove)' if p['remove'] else ''}" for p in moves))
+        else:
+            ctx.oblige("an-unstored-data-touches-no-record", e["attrs"].items == e["table"] and not [1 for k, p in ev if k == "update_array_attribute"])
+
+    def post_raises(self, ctx, sig):
+        e = ctx.env
+        stored, holder = ctx.case
+        ctx.oblige("only-a-taken-name-is-refused", stored and holder == "another" and sig.exc_class is ValueError, kind="post-exc")
+        ctx.oblige("a-refused-name-changes-nothing", e["me"].attrs.get("_name") == "old" and e["attrs"].items == e["table"] and not ctx.path.events, kind="post-exc", note="; ".join(k for k, p in ctx.path.events))
+
+
+class ConcatParentSet(Contract):
+    """ConcatenatedData.parent: the data joins the hole's children and is filed under its name in the
+    hole's record; a name under which another data of the hole is filed is refused before anything
+    is touched; a record already naming this data (a data read from the file) is left as it is."""
+    target = "geoh5py/shared/concatenation/data.py::ConcatenatedData.parent.fset"
+    props = ("C04", "C05")
+    lenient = True
+
+    def cases(self):
+        return ["nobody", "another", "itself", "not-a-container"]
+
+    def setup(self, ctx):
+        me, parent = _concat_data(ctx, False, {"not-a-container": "nobody"}.get(ctx.case, ctx.case), old_registered=False)
+        me.attrs["_name"] = "new"
+        me.attrs["name"] = "new"
+        if ctx.case == "not-a-container":
+            parent = 5
+        else:
+            parent.attrs["concatenator"] = me.attrs["concatenator"]
+        ctx.env["parent_arg"] = parent
+        return [me, parent], {}
+
+    def post(self, ctx, result):
+        e = ctx.env
+        if ctx.case in ("another", "not-a-container"):
+            ctx.oblige("a-taken-name-or-an-unsuitable-parent-is-refused", False, note="the data joined a hole on which another data is filed under its name: removing either one de-registers the other")
+            return
+        joined = [p for k, p in ctx.path.events if k == "add_children"]
+        ctx.oblige("the-data-joins-the-hole-and-is-filed-under-its-name", len(joined) == 1 and e["me"].attrs.get("_parent") is e["parent_arg"] and e["attrs"].items.get("Property:new") == e["uid_text"])
+        ctx.oblige("other-records-are-left-alone", {k: v for k, v in e["attrs"].items.items() if k != "Property:new"} == {k: v for k, v in e["table"].items() if k != "Property:new"})
+
+    def post_raises(self, ctx, sig):
+        e = ctx.env
+        ctx.oblige("only-a-taken-name-or-an-unsuitable-parent-is-refused", ctx.case in ("another", "not-a-container") and sig.exc_class is ValueError, kind="post-exc")
+        ctx.oblige("a-refusal-changes-nothing", e["attrs"].items == e["table"] and not ctx.path.events and e["me"].attrs.get("_parent") is None, kind="post-exc")
+
+
+CONTRACTS = [ConcatNameSet, ConcatParentSet, FileNameSet, ClearArrays, PropertyGroupInitStub, CreatePropertyGroupMembers, DrillholeClip, ComponentsReadOnly]
